@@ -122,6 +122,11 @@ def run(ctx, model_available=True):
             directed[(old, new)] = [
                 [("recv", f"77;255;3;{a};22;{p}") for p in ("abc", "", "5", "1.0", " 7 ", "-1") for a in (0, 1)]
                 + [("recv", "1;255;0;0;17;2.0"), ("recv", "77;255;3;0;22;x"), ("recv", "77;255;3;0;22;12")]]
+    # directed: a value reported with an empty payload (and "0"), then requested, on every pair
+    for old, new in PAIRS:
+        directed.setdefault((old, new), []).append(
+            [("recv", "5;255;0;0;17;2.0"), ("recv", "5;1;0;0;3;"), ("recv", "5;1;1;0;2;"), ("recv", "5;1;2;0;2;"),
+             ("recv", "5;1;1;0;3;0"), ("recv", "5;1;2;0;3;"), ("recv", "5;1;2;0;16;"), ("send", (5, 1, 1, 0, 2, ""), True), ("recv", "5;1;2;0;2;")])
     for old, new in PAIRS:
         for hi in range(n_hist + len(directed.get((old, new), []))):
             ops = [op for op in (gen(rng, old) if hi < n_hist else directed[(old, new)][hi - n_hist]) if not excluded(op, old, new)]
